@@ -40,3 +40,10 @@ Print Assumptions C17_deformed_code_same_distance.
 Theorem C17_fast_css_distance_checker_sound : forall c d w, distance_ok_css_fast c d w = true -> Distance c d.
 Proof. exact distance_ok_css_fast_sound. Qed.
 Print Assumptions C17_fast_css_distance_checker_sound.
+
+(** refutation side: a kernel-checked operator that commutes with all generators, acts non-trivially
+    on the logical qubits and is lighter than the reported d shows that d is not the distance *)
+Theorem C17_lighter_logical_refutes_reported_distance :
+  forall c d w, lighter_logical c d w = true -> ~ Distance c d.
+Proof. exact lighter_logical_refutes. Qed.
+Print Assumptions C17_lighter_logical_refutes_reported_distance.
